@@ -112,6 +112,13 @@ def cases(tier, seed):
             for api in ["update", "filter_insert"]:
                 for nc in ((2,) if api == "filter_insert" else (2, 0)):   # the filter must behave the same on a problem without constraints
                     out.append({"kind": kind, "rho0": rho0, "api": api, "V": t["V"], "depth": t["depth"], "num_cons": nc})
+    # long anti-chains (the filter has no capacity): N mutually non-dominated entries inserted in three orders, then EVERY probe that is
+    # dominated by exactly one stored entry, that dominates a block of entries, or that is new - in lock step with the reference set
+    for kind in ["Objective", "Lagrangian"]:
+        for api in ["update", "filter_insert"]:
+            for N in ((40, 300, 1500, 3000) if tier == "quick" else (40, 300, 1500, 3000, 6000, 12000)):
+                for order in ("asc", "desc", "inside_out"):
+                    out.append({"kind": kind, "api": api, "chain": N, "order": order, "rho0": 1.0 if api == "filter_insert" else 1e-300})
     # E5: TLC-enumerated state graph of tla/PenaltyFilter.tla, every edge replayed on the implementation
     out.append({"kind": "tlc", "V": [0, 1, 2], "K": 2, "rho0": 1e-8})
     if tier == "thorough":
@@ -223,9 +230,65 @@ def step(kind, api, f, ref, a, b):
     return bool(ok), None
 
 
+def chain_case(case):
+    global NUM_CONS
+    NUM_CONS = 2
+    kind, api, N = case["kind"], case["api"], case["chain"]
+    f = make_filter(kind, case["rho0"])
+    ref = RefFilter(case["rho0"])
+    idx = list(range(N))
+    if case["order"] == "desc":
+        idx.reverse()
+    elif case["order"] == "inside_out":
+        idx = sorted(idx, key=lambda i: (abs(i - N // 2), i))
+    viol = []
+    n_ev = 0
+
+    def do(a, b, what):
+        nonlocal n_ev
+        n_ev += 1
+        acc, rho_ret = step(kind, api, f, ref, a, b)
+        want = ref.update(pair_of(kind, a, b))
+        if api == "filter_insert" and not want:
+            ref.rho = ref.rho / 10.0  # filter_insert itself does not touch the penalty
+        if acc != want:
+            viol.append({"sig": f"C18|{kind}|{api}|chain|{'accept' if want else 'refuse'}_expected",
+                         "msg": f"{what}: point ({a},{b}) {'refused' if want else 'accepted'} with {len(f.entries)} stored entries; the reference "
+                                f"{'accepts' if want else 'refuses'} it (chain of {N}, order {case['order']})", "detail": {"N": N, "point": [a, b]}})
+            return False
+        got = set(tuple(map(float, e)) for e in f.entries)
+        if got != ref.entries:
+            viol.append({"sig": f"C18|{kind}|{api}|chain|entries", "msg": f"{what}: after ({a},{b}) the filter holds {len(got)} entries, the reference "
+                         f"{len(ref.entries)} (missing {sorted(ref.entries - got)[:3]}, extra {sorted(got - ref.entries)[:3]})", "detail": {"N": N, "point": [a, b]}})
+            return False
+        if api == "update" and rho_ret != ref.rho:
+            viol.append({"sig": f"C18|{kind}|{api}|chain|rho", "msg": f"{what}: penalty {rho_ret!r}, reference {ref.rho!r}", "detail": {"N": N}})
+            return False
+        return True
+
+    # entry i = (first coordinate 2i+1 increasing, second coordinate 2(N-i)+1 decreasing): mutually non-dominated
+    ok = True
+    for i in idx:
+        if not do(2 * i + 1, 2 * (N - i) + 1, f"building the chain (entry {i})"):
+            ok = False
+            break
+    if ok:
+        for i in range(N):  # dominated by entry i only
+            if not do(2 * i + 2, 2 * (N - i) + 2, f"probe dominated by entry {i} only"):
+                break
+    if ok and not viol:
+        for i in range(0, N - 6, max(1, N // 40)):  # dominates entries i .. i+5
+            if not do(2 * i + 1, 2 * (N - i - 5) + 1, f"point dominating entries {i}..{i + 5}"):
+                break
+    return {"outcome": "chain-ok" if not viol else "violating", "key": f"chain|{kind}|{api}|{N}|{case['order']}", "violations": viol[:2],
+            "stats": {"transitions": n_ev, "states": n_ev, "chain_max": N}}
+
+
 def run_case(case):
     if case.get("kind") == "tlc":
         return tlc_case(case)
+    if case.get("chain"):
+        return chain_case(case)
     global NUM_CONS
     NUM_CONS = case.get("num_cons", 2)
     kind, rho0, api, V, depth = case["kind"], case["rho0"], case["api"], case["V"], case["depth"]
@@ -326,6 +389,7 @@ def summarize(cases_, results, tier):
         "transitions": tr,
         "traces_validated_against_impl": tr,
         "tlc_edges_replayed": sum(r["stats"].get("tlc_edges_replayed", 0) for r in results),
+        "longest_antichain": max([r["stats"].get("chain_max", 0) for r in results] + [0]),
         "depth_bound": TABLE[tier]["depth"],
         "value_grid": TABLE[tier]["V"],
     }
